@@ -1,0 +1,72 @@
+//! Verification hooks (compiled only with `--cfg mla_verif`)
+//!
+//! * size constants overridable at compile time through `MLA_VERIF_*`
+//!   environment variables (unset => production value);
+//! * a thread-local event recorder, off unless a harness turns it on.
+use std::cell::RefCell;
+
+/// Parse a decimal `option_env!` value at compile time, `default` if unset
+pub const fn env_u64(value: Option<&str>, default: u64) -> u64 {
+    match value {
+        None => default,
+        Some(s) => {
+            let bytes = s.as_bytes();
+            if bytes.is_empty() {
+                return default;
+            }
+            let mut i = 0;
+            let mut acc: u64 = 0;
+            while i < bytes.len() {
+                let c = bytes[i];
+                assert!(c >= b'0' && c <= b'9', "MLA_VERIF_* must be decimal");
+                acc = acc * 10 + (c - b'0') as u64;
+                i += 1;
+            }
+            acc
+        }
+    }
+}
+
+/// One recorded event: a name and integer fields
+#[derive(Debug, Clone)]
+pub struct Event {
+    pub name: &'static str,
+    pub fields: Vec<(&'static str, i64)>,
+}
+
+thread_local! {
+    static RECORDER: RefCell<Option<Vec<Event>>> = const { RefCell::new(None) };
+}
+
+/// Start recording events on this thread (drops anything recorded before)
+pub fn start_recording() {
+    RECORDER.with(|r| *r.borrow_mut() = Some(Vec::new()));
+}
+
+/// Stop recording and return the events
+pub fn take_events() -> Vec<Event> {
+    RECORDER.with(|r| r.borrow_mut().take().unwrap_or_default())
+}
+
+/// Record an event if recording is on
+pub fn emit(name: &'static str, fields: &[(&'static str, i64)]) {
+    RECORDER.with(|r| {
+        if let Some(v) = r.borrow_mut().as_mut() {
+            v.push(Event {
+                name,
+                fields: fields.to_vec(),
+            });
+        }
+    });
+}
+
+/// Size constants in effect for this build
+pub fn constants() -> [(&'static str, u64); 5] {
+    [
+        ("chunk", crate::layers::encrypt::verif_chunk_size()),
+        ("cipher_buf", crate::layers::encrypt::verif_cipher_buf_size()),
+        ("block", crate::layers::compress::verif_block_size()),
+        ("fs_cache", crate::layers::compress::verif_fail_safe_buffer_size()),
+        ("repair_cache", crate::CACHE_SIZE as u64),
+    ]
+}
